@@ -16,3 +16,5 @@ require (
 )
 
 replace src.elv.sh => /repo
+
+require github.com/yuin/goldmark v1.4.13 // C35: independent CommonMark reference (module cache, offline)
